@@ -527,4 +527,6 @@ def run(ctx):
     ctx.guard(r5_commit_after_alloc, ctx, prog)
     ctx.guard(r6_primitives, ctx, prog)
     ctx.guard(r7_no_wrap, ctx, prog)
+    from rules import C07_replay
+    ctx.guard(C07_replay.r8, ctx, prog)
     return prog
